@@ -13,6 +13,7 @@ Decided:
 Not decided: byte identity of the output across chunkings (value-level).
 """
 from rules.common import *
+from core import backward_slice as _core_backward_slice
 
 META = {
     "level": "other",
@@ -75,6 +76,9 @@ def run(ctx, rep):
 def protocol(ctx, rep, P):
     """front-end protocol rules, shared with C09 (MD5 truthfulness) under another rule prefix"""
     F = ctx.facts()
+
+    def backward_slice(body_, o_):      # inside a closure, captured state is followed into the creating function
+        return slice_with_captures(F, body_, o_) if body_.kind == "Closure" else _core_backward_slice(body_, o_)
     # ---- per front-end protocol ---------------------------------------------------------------------
     nenc = 0
     for name, fr in FRONTS.items():
@@ -84,11 +88,20 @@ def protocol(ctx, rep, P):
             if b is None:
                 continue
             reg = region(F, b)
+            # the per-block work may be the body of a closure handed to try_fold / try_for_each over the chunk iterator
+            pb = b
+            if not any(strip_generics(callee_name(t)) == "encode::Encoder::encode" for _, t in b.calls()):
+                cands = [c for c in F.closures_of(b) if any(strip_generics(callee_name(t)) == "encode::Encoder::encode" for _, t in c.calls())]
+                if len(cands) == 1:
+                    pb = cands[0]
+            outer_b, b = b, pb
+
             encs = [(bb, i, t) for bb in [b] for i, t in bb.calls() if strip_generics(callee_name(t)) == "encode::Encoder::encode"]
             md5s = [(bb, i, t) for bb in [b] for i, t in bb.calls() if callee_name(t).endswith("md5::Context::consume") or strip_generics(callee_name(t)) == "encode::update_md5"]
             rep.check(P + ".sib", "%s %s: exactly one encode and one MD5 update per block" % (name, role), len(encs) == 1 and len(md5s) == 1, loc_of(b),
                       "%d encode, %d md5" % (len(encs), len(md5s)))
             if len(encs) != 1 or len(md5s) != 1:
+                b = outer_b
                 continue
             nenc += 1
             ei, et = encs[0][1], encs[0][2]
@@ -111,6 +124,11 @@ def protocol(ctx, rep, P):
                     nx = [c for c in fsl["calls"] if callee_name(c).endswith("Iterator>::next") or callee_name(c).endswith("Iterator::next")]
                     nm = [c for c in msl["calls"] if callee_name(c).endswith("Iterator>::next") or callee_name(c).endswith("Iterator::next")]
                     common = bool(nx) and bool(nm) and any(a is b_ for a in nx for b_ in nm)
+                if not common and b.kind == "Closure":
+                    # both are derived from the same closure argument: the chunk the iterator hands to the closure
+                    shared = {a for a in (_core_backward_slice(b, fills[0]["a"][1])["args"] & _core_backward_slice(b, mt["a"][1])["args"]) if a >= 2}
+                    host = [h for _, h in outer_b.calls() if b.path in [getattr(F.body(x), "path", None) for x in (h.get("cls") or ())]]
+                    common = bool(shared) and len(host) == 1 and any(re.search(r"chunks_exact(_mut)?$", callee_name(c)) for c in _core_backward_slice(outer_b, host[0]["a"][0])["calls"])
                 rep.check(P + ".sib", "%s %s: MD5 and encoder consume the same carry-over buffer (%s)" % (name, role, fr["buf"]), common, loc_of(b, mt),
                           "", "the MD5 update and the encoder are fed from different data")
             if name == "byte":
@@ -127,6 +145,7 @@ def protocol(ctx, rep, P):
             else:
                 w = backward_slice(b, mt["a"][2]) if len(mt["a"]) > 2 else {"fields": set()}
                 rep.check(P + ".sib", "%s %s: update_md5 uses self.bytes_per_sample" % (name, role), "bytes_per_sample" in w["fields"], loc_of(b, mt))
+            b = outer_b
             if role == "write":
                 # chunking
                 mk = [(bb, i, t) for bb in reg for i, t in bb.calls() if callee_name(t).endswith("VecDeque::<T, A>::make_contiguous")]
@@ -143,7 +162,8 @@ def protocol(ctx, rep, P):
                 good = len(dr) == 1
                 if good:
                     dsl = backward_slice(dr[0][0], dr[0][2]["a"][1])
-                    good = fr["size"] in dsl["fields"] and any(op.startswith("Mul") for op in dsl["ops"]) and 0 in dsl["consts"] and not dsl["calls"] and \
+                    counted = [c for c in dsl["calls"] if not re.search(r"Iterator::try_fold$|Try>::branch$|Iterator::count$|chunks_exact(_mut)?$|make_contiguous$", callee_name(c))]
+                    good = fr["size"] in dsl["fields"] and any(op.startswith("Mul") for op in dsl["ops"]) and 0 in dsl["consts"] and not counted and \
                         not [op for op in dsl["ops"] if op.replace("WithOverflow", "") not in ("Mul", "Add", "Eq", "Ne")]
                 rep.check(P + ".sib", "%s write: drains exactly block size x encoded blocks from the front" % name, good, loc_of(b))
                 ex = [(bb, i, t) for bb in reg for i, t in bb.calls() if re.search(r"Extend<.*>>::extend$", callee_name(t))]
